@@ -143,11 +143,33 @@ where
     }
 
     fn collect_item_keys(&self) -> HashMap<ast::ItemKey, ast::ResolvedItemKind> {
-        self.lalrpop_results
-            .values()
-            .flat_map(|fr| &fr.ast)
-            .map(|f| (f.get_key(), f.item.get_kind()))
-            .collect()
+        fn rank(kind: &ast::ResolvedItemKind) -> u8 {
+            match kind {
+                ast::ResolvedItemKind::Interface => 0,
+                ast::ResolvedItemKind::Parcelable => 1,
+                ast::ResolvedItemKind::Enum => 2,
+                ast::ResolvedItemKind::ForwardDeclaredParcelable => 3,
+                ast::ResolvedItemKind::UnknownImport => 4,
+            }
+        }
+
+        let mut keys: HashMap<ast::ItemKey, ast::ResolvedItemKind> = HashMap::new();
+        for f in self.lalrpop_results.values().flat_map(|fr| &fr.ast) {
+            let kind = f.item.get_kind();
+            match keys.entry(f.get_key()) {
+                std::collections::hash_map::Entry::Occupied(mut e) => {
+                    // Several files define the same item: keep the same kind whatever the iteration order
+                    if rank(&kind) < rank(e.get()) {
+                        e.insert(kind);
+                    }
+                }
+                std::collections::hash_map::Entry::Vacant(e) => {
+                    e.insert(kind);
+                }
+            }
+        }
+
+        keys
     }
 }
 
